@@ -182,3 +182,63 @@ if m:
 # AVL Next: staleness test with the operands of || swapped
 sub('avl-tree.go','obj.node.Deleted || obj.value != obj.node.Value','obj.value != obj.node.Value || obj.node.Deleted')
 # Real64 Set: local for the order
+# --- batch C robustness edits ---
+# the bound test of the normal estimator in squared form (equivalent for SigmaMin >= 0)
+sub('statistics/scalarEstimator/normal.go','''  mu    := NewScalar(obj.ScalarType(), s1)
+  sigma := NewScalar(obj.ScalarType(), math.Sqrt(s2 - s1*s1))
+
+  if math.IsNaN(sigma.GetFloat64()) || sigma.GetFloat64() < obj.SigmaMin {''','''  v     := s2 - s1*s1
+  mu    := NewScalar(obj.ScalarType(), s1)
+  sigma := NewScalar(obj.ScalarType(), math.Sqrt(v))
+
+  if math.IsNaN(sigma.GetFloat64()) || v < obj.SigmaMin*obj.SigmaMin {''')
+# MIN of the concrete variant delegates to the comparison of its own type
+sub('scalar_real64_math_concrete.go','''func (r *Real64) MIN(a, b *Real64) Scalar {
+  if a.GetFloat64() < b.GetFloat64() {''','''func (r *Real64) MIN(a, b *Real64) Scalar {
+  if a.SMALLER(b) {''')
+# a clone written as whole copy plus re-cloned references
+sub('matrix_dense_real64.go','''  return &DenseReal64Matrix{
+    values : matrix.values.Clone(),
+    rows : matrix.rows,
+    cols : matrix.cols,
+    transposed: matrix.transposed,
+    rowOffset : matrix.rowOffset,
+    rowMax : matrix.rowMax,
+    colOffset : matrix.colOffset,
+    colMax : matrix.colMax,
+    tmp1 : matrix.tmp1.Clone(),
+    tmp2 : matrix.tmp2.Clone() }''','''  r := *matrix
+  r.values = matrix.values.Clone()
+  r.tmp1 = matrix.tmp1.Clone()
+  r.tmp2 = matrix.tmp2.Clone()
+  return &r''')
+# decoder: header assignments in another order
+sub('matrix_dense_float64.go','''  a.values = r.Values
+  a.rows = r.Rows
+  a.rowMax = r.Rows
+  a.rowOffset = 0
+  a.cols = r.Cols
+  a.colMax = r.Cols
+  a.colOffset = 0
+  a.transposed = false
+  return nil''','''  a.transposed = false
+  a.rowOffset, a.colOffset = 0, 0
+  a.rows, a.cols = r.Rows, r.Cols
+  a.rowMax, a.colMax = r.Rows, r.Cols
+  a.values = r.Values
+  return nil''')
+# named parameter read into a differently named local
+sub('statistics/generic/hmm.go','''  finalStates, ok := config.GetNamedParametersAsInts("FinalStates"); if ! ok {''','''  fs, ok := config.GetNamedParametersAsInts("FinalStates"); if ! ok {''')
+sub('statistics/generic/hmm.go','''  obj.SetFinalStates(finalStates)''','''  obj.SetFinalStates(fs)''')
+# E-step: multiplicity added before the observation weight
+sub('statistics/generic/mixture_em.go','''      if meta != nil {
+        gammaTmp.AT(i).Add(gammaTmp.AT(i), meta.ConstAt(l))
+      }
+      if counts != nil {
+        gammaTmp.AT(i).Add(gammaTmp.AT(i), ConstFloat64(math.Log(float64(counts[l]))))
+      }''','''      if counts != nil {
+        gammaTmp.AT(i).Add(gammaTmp.AT(i), ConstFloat64(math.Log(float64(counts[l]))))
+      }
+      if meta != nil {
+        gammaTmp.AT(i).Add(gammaTmp.AT(i), meta.ConstAt(l))
+      }''')
